@@ -740,6 +740,10 @@ func pushPrefixLeaf(d *DPath) string {
 	var parts []string
 	w := newWEval(theProg, d.Blocks[0].Parent())
 	w.pathPhi = d.Env.Phi
+	w.pathBlocks = map[*ssa.BasicBlock]bool{}
+	for _, b := range d.Blocks {
+		w.pathBlocks[b] = true
+	}
 	l := seqOf(w.eval(d.Ret.Results[0]))
 	for _, it := range l.Items {
 		isLen := strings.Contains(it.S, "len(p0)")
@@ -800,8 +804,8 @@ func decodePartsLeaf(d *DPath) string {
 						}
 					}
 				}
-				if lo, ok := constInt(d.Env.Val(x.Low)); ok && lo.Sign() > 0 && !usedByDecode {
-					dataOff = lo.String()
+				if lo, ok := evalTerm(d.Env.Term(x.Low), map[string]*big.Int{}); ok && lo.Sign() > 0 && !usedByDecode {
+					dataOff = lo.String() // (an offset such as 1+lenSize folds once the path has fixed lenSize)
 				}
 			}
 		case *ssa.Convert:
